@@ -363,7 +363,78 @@ func (f *Fn) Implied(e ast.Expr, val bool) []Atom {
 	if !val {
 		a = a.Neg()
 	}
+	if g, body := f.predHelper(e); g != nil {
+		// a call of a one-line predicate helper also implies what its body implies
+		return append([]Atom{a}, g.Implied(body, val)...)
+	}
 	return []Atom{a}
+}
+
+// predHelper recognises a call of a function of the analysed program whose body
+// is the single statement `return <boolean expression>` and returns a view of
+// the callee in which the receiver and the parameters carry the canonical names
+// of the call's operands, together with the returned expression.  Guards that
+// were moved into such a helper ("if s.canRemove(f)") keep their atoms.
+func (f *Fn) predHelper(e ast.Expr) (*Fn, ast.Expr) {
+	if f.expandDepth >= 3 {
+		return nil, nil
+	}
+	call, ok := ast.Unparen(e).(*ast.CallExpr)
+	if !ok {
+		return nil, nil
+	}
+	fn := Callee(f.Info, call)
+	if fn == nil {
+		return nil, nil
+	}
+	src := f.P.Src(fn)
+	if src == nil || src.Decl.Body == nil || len(src.Decl.Body.List) != 1 {
+		return nil, nil
+	}
+	ret, ok := src.Decl.Body.List[0].(*ast.ReturnStmt)
+	if !ok || len(ret.Results) != 1 {
+		return nil, nil
+	}
+	sig := fn.Type().(*types.Signature)
+	if sig.Variadic() || sig.Results().Len() != 1 {
+		return nil, nil
+	}
+	if b, isB := sig.Results().At(0).Type().Underlying().(*types.Basic); !isB || b.Info()&types.IsBoolean == 0 {
+		return nil, nil
+	}
+	if len(call.Args) != sig.Params().Len() {
+		return nil, nil
+	}
+	base := f.P.Fn(src)
+	if base == nil {
+		return nil, nil
+	}
+	g := *base
+	g.defCache = nil
+	g.expandDepth = f.expandDepth + 1
+	g.AtomRename = f.AtomRename
+	g.Subst = map[types.Object]string{}
+	if sig.Recv() != nil {
+		sel, ok := ast.Unparen(call.Fun).(*ast.SelectorExpr)
+		if !ok {
+			return nil, nil
+		}
+		rc := f.Canon(sel.X)
+		rc = strings.TrimPrefix(rc, "&")
+		g.Subst[sig.Recv()] = rc
+		if base.Recv != nil {
+			g.Subst[base.Recv] = rc
+		}
+	}
+	for i, pv := range base.Params {
+		if i < len(call.Args) {
+			g.Subst[pv] = f.Canon(call.Args[i])
+		}
+	}
+	for i := 0; i < sig.Params().Len() && i < len(call.Args); i++ {
+		g.Subst[sig.Params().At(i)] = f.Canon(call.Args[i])
+	}
+	return &g, ret.Results[0]
 }
 
 // Sufficient returns the atoms each of which alone forces e to evaluate to val.
@@ -391,6 +462,9 @@ func (f *Fn) Sufficient(e ast.Expr, val bool) []Atom {
 	a := f.AtomOf(e)
 	if !val {
 		a = a.Neg()
+	}
+	if g, body := f.predHelper(e); g != nil {
+		return append([]Atom{a}, g.Sufficient(body, val)...)
 	}
 	return []Atom{a}
 }
@@ -438,6 +512,12 @@ func (f *Fn) FormulaOf(e ast.Expr, atoms map[string]bool) Formula {
 			return fAnd{f.FormulaOf(x.X, atoms), f.FormulaOf(x.Y, atoms)}
 		case token.LOR:
 			return fOr{f.FormulaOf(x.X, atoms), f.FormulaOf(x.Y, atoms)}
+		}
+	}
+	if f.ExpandPreds {
+		if g, body := f.predHelper(e); g != nil {
+			g.ExpandPreds = true
+			return g.FormulaOf(body, atoms)
 		}
 	}
 	a := f.AtomOf(e)
